@@ -1282,5 +1282,5 @@ PARTS = [
                     "size>16KiB", "request-invalid:unknown-method", "request-valid:store", "verdict-response",
                     "verdict-error", "verdict-malformed:not-bencode", "verdict-dontcare:non-canonical-order")),
     Part("atheris", None, run_fuzz_campaign, 0, 0, quick_shards=2, thorough_shards=16, enumerate_cases=fuzz_campaigns,
-         essential=("fuzz-campaign",)),
+         essential=("fuzz-campaign",), case_timeout=3400),
 ]
